@@ -10,5 +10,6 @@ VIEW View
 INVARIANT AtMostOneOwner
 PROPERTY NoUnlockDirty
 PROPERTY FreshAfterVerify
+PROPERTY PartialRecorded
 ACTION_CONSTRAINT EmitEdge
 CHECK_DEADLOCK FALSE
